@@ -126,6 +126,32 @@ func implC06(line string) string {
 		return numRes(c.fParseFloat.Call(u, sval(f[1])))
 	case "lit": // lit S
 		return litImpl(c, f[1])
+	case "litstr": // litstr S : String(<literal>)
+		if r := litImpl(c, f[1]); r == "other" || strings.HasPrefix(r, "throw:") || strings.Contains(r, "mismatch") {
+			return r
+		}
+		b, _ := hex.DecodeString(strings.TrimPrefix(f[1], "s:"))
+		v, err := c.vm.Run(string(b))
+		if err != nil {
+			return errTok(err)
+		}
+		return strRes(c.fString.Call(u, v))
+	case "pintstr": // pintstr S A : String(parseInt(s, a))
+		v, err := c.fParseInt.Call(u, sval(f[1]), argVal(f[2]))
+		if err != nil {
+			return errTok(err)
+		}
+		return strRes(c.fString.Call(u, v))
+	case "nthis": // nthis M K : Number.prototype.M.call(<this of kind K>)
+		expr, ok := thisExprs[f[2]]
+		if !ok {
+			return "bad-op"
+		}
+		_, err := c.vm.Run("Number.prototype." + f[1] + ".call(" + expr + ")")
+		if err != nil {
+			return errTok(err)
+		}
+		return "ok"
 	case "istr": // istr I   (an int64-kinded number Value, as produced by integer literals, parseInt, Go ints)
 		n, err := strconv.ParseInt(f[1], 10, 64)
 		if err != nil {
@@ -184,6 +210,12 @@ func litImpl(c *vmCtx, tok string) string {
 		return "ast-vs-run-mismatch:" + h.F64Hex(lf) + ":" + h.F64Hex(f)
 	}
 	return h.F64Hex(f)
+}
+
+var thisExprs = map[string]string{
+	"undef": "undefined", "null": "null", "bool": "true", "str": "'12'", "num": "12.5", "obj": "({})", "arr": "[1]",
+	"fn": "(function(){})", "date": "new Date(0)", "numObj": "new Number(12.5)", "strObj": "new String('12')",
+	"boolObj": "new Boolean(false)", "protoChild": "Object.create(Number.prototype)",
 }
 
 func lg(x float64) string { return h.F64Hex(math.Log10(math.Abs(x))) }
